@@ -91,6 +91,7 @@ const int32_t* chosen(size_t* n); // the client chosen at every decision (for ex
 uint32_t       preemptions();     // decisions that switched away from a runnable current client
 uint32_t       stalls_fired();    // decisions where the stall window excluded a runnable victim
 uint32_t       blocked_fired();   // lock requests that found the mutex held
-uint64_t       trace_hash();      // hash of (client, kind) sequence: one value per distinct interleaving
+uint64_t       trace_hash();
+int            client_of_os_tid(long os_tid); // -1 if the thread is not a client of the last run      // hash of (client, kind) sequence: one value per distinct interleaving
 } // namespace sched
 } // namespace sim
